@@ -589,6 +589,7 @@ class ResidueMonitor:
         self.lib = library_state()
         self.pypdf = pypdf_identities()
         self.reported = set()
+        self.tp = third_party_scalars()
 
     def _fd_growth(self):
         now = fd_table()
@@ -690,6 +691,15 @@ class ResidueMonitor:
             ctx.finding(f"residue:library-global:{mname.split('.')[-1]}.{attr}:{key}",
                         f"extraction of {name} ({outcome}) changed module-level state {mname}.{attr}: {old_sig} -> {sig}", r2)
         self.lib = lib
+        # scalar settings of the third-party packages the library imports
+        tp = third_party_scalars()
+        for k2, v in tp.items():
+            if k2 in self.tp and self.tp[k2] != v and ("t", k2) not in self.reported:
+                self.reported.add(("t", k2))
+                ctx.finding(f"residue:third-party-config:{k2[0]}.{k2[1]}",
+                            f"extraction of {name} ({outcome}) changed {k2[0]}.{k2[1]}: {self.tp[k2]!r} -> {v!r} and did not restore it",
+                            dict(rep, setting=f"{k2[0]}.{k2[1]}", before=self.tp[k2], after=v))
+        self.tp = tp
         # identity of pypdf's functions (monkeypatching of the third-party library)
         pid = pypdf_identities()
         changed = sorted(f"{m}.{a}" for (m, a), i in pid.items() if (m, a) in self.pypdf and self.pypdf[(m, a)] != i)
@@ -1612,7 +1622,7 @@ def global_mutation_inventory(ctx):
                         # a module (import x / import x.y as z / from pkg import module); from-imported plain names of
                         # library classes / dataclass instances are not modules
                         is_mod = any(isinstance(n, ast.Import) and any((a.asname or a.name.split(".")[0]) == base.id for a in n.names)
-                                     for n in ast.walk(tree))
+                                     for n in ast.walk(tree)) or _is_module_name(tgt)
                         if is_mod:
                             callee = "os.environ[...] = ..." if ast.unparse(t).startswith(base.id + ".environ") else "<module>.attr = ..."
             if callee is None:
@@ -2190,6 +2200,8 @@ def workload_checks(ctx, pe, aes, world, docs, base, tmproot, special, aes0=Fals
     for seq in trip[: ctx.n(20, 60)]:
         check_seq(list(seq), "sequence:triples")
     residue("ordered sequences", core)
+    # ---- third-party settings configured by the application after import must survive extractions
+    knob_perturbation_checks(ctx, mon, docs, base)
     # ---- failing and border-line calls of the public entry point itself
     entry_point_failure_checks(ctx, mon, [d for d in docs if "/resources/" in d], str(Path(special["garbage_pdf"]).parent))
     # ---- damaged inputs of every format, residue compared after each single (mostly failing) extraction
@@ -2496,6 +2508,237 @@ def yield_under_lock_inventory(ctx):
     return bad
 
 
+OPENERS = {"open", "io.open", "os.open", "os.fdopen", "os.popen", "codecs.open", "gzip.open", "bz2.open", "lzma.open",
+           "socket.socket", "tempfile.NamedTemporaryFile", "tempfile.TemporaryFile", "tempfile.mkstemp", "zipfile.ZipFile",
+           "tarfile.open", "mmap.mmap", "Path.open", "path.open"}
+CLOSERS = {"os.close"}
+
+
+def translate_read_file():
+    """Fail-closed translation of sharepoint2text.read_file into C15.Handles.rblock."""
+    import sharepoint2text
+    src = Path(sharepoint2text.__file__).read_text(encoding="utf-8")
+    tree = ast.parse(src)
+    fns = [n for n in tree.body if isinstance(n, ast.FunctionDef) and n.name == "read_file"]
+    if len(fns) != 1:
+        raise TranslateError("read_file not found")
+    al = _aliases(tree)
+
+    def opener(call):
+        if not isinstance(call, ast.Call):
+            return None
+        d, _ = _dotted(call.func, al)
+        if d in OPENERS or (isinstance(call.func, ast.Attribute) and call.func.attr == "open"):
+            return d or "open"
+        return None
+
+    def has_opener(node):
+        return any(opener(n) for n in ast.walk(node))
+
+    def blk(items):
+        out = "BNil"
+        for it in reversed(items):
+            out = f"(BCons {it} {out})"
+        return out
+
+    def stmts(body):
+        out = []
+        for st in body:
+            if isinstance(st, ast.Expr) and isinstance(st.value, ast.Constant):
+                continue
+            if isinstance(st, (ast.Import, ast.ImportFrom)):
+                out.append("RAny")
+                continue
+            if isinstance(st, ast.Expr) and isinstance(st.value, ast.Call) and ast.unparse(st.value.func).startswith("logger."):
+                continue
+            if isinstance(st, ast.Expr) and isinstance(st.value, (ast.Yield, ast.YieldFrom)):
+                if has_opener(st.value):
+                    raise TranslateError("opener inside a yield expression")
+                out.append("RYield" if isinstance(st.value, ast.Yield) else "(RLoop (BCons RAny (BCons RYield BNil)))")
+                continue
+            if isinstance(st, ast.Raise):
+                out.append("RRaise")
+                continue
+            if isinstance(st, ast.Return):
+                raise TranslateError("return inside read_file is not modelled")
+            if isinstance(st, (ast.Assign, ast.AnnAssign, ast.AugAssign, ast.Expr)):
+                v = st.value
+                if v is not None and has_opener(v):
+                    d, _ = _dotted(v.func, al) if isinstance(v, ast.Call) else (None, None)
+                    out.append("ROpenRaw")        # a handle acquired outside a with statement
+                elif isinstance(v, ast.Call) and _dotted(v.func, al)[0] in CLOSERS or \
+                        (isinstance(v, ast.Call) and isinstance(v.func, ast.Attribute) and v.func.attr == "close"):
+                    out.append("RCloseRaw")
+                else:
+                    out.append("RAny")
+                continue
+            if isinstance(st, ast.If):
+                if has_opener(st.test):
+                    raise TranslateError("opener in an if test")
+                out.append("RAny")               # the test may raise (path.stat())
+                out.append(f"(RIf {blk(stmts(st.body))})")
+                if st.orelse:
+                    out.append(f"(RIf {blk(stmts(st.orelse))})")
+                continue
+            if isinstance(st, ast.With):
+                if len(st.items) != 1:
+                    raise TranslateError("with statement with several items")
+                ce = st.items[0].context_expr
+                op = opener(ce)
+                if op is None:
+                    raise TranslateError("with over something that is not a known opener: " + ast.unparse(ce)[:60])
+                inner = blk(stmts(st.body))
+                out.append(f"(RWrapRaw {inner})" if op == "os.fdopen" else f"(RWith {inner})")
+                continue
+            if isinstance(st, ast.Try):
+                if st.finalbody or st.orelse:
+                    raise TranslateError("try with finally/else in read_file is not modelled")
+                for h in st.handlers:
+                    for hs in h.body:
+                        if not (isinstance(hs, ast.Raise) or (isinstance(hs, ast.Expr) and isinstance(hs.value, ast.Call)
+                                                              and ast.unparse(hs.value.func).startswith("logger."))):
+                            raise TranslateError("exception handler that does more than re-raise: " + ast.unparse(hs)[:60])
+                        if has_opener(hs):
+                            raise TranslateError("opener in an exception handler")
+                out.append(f"(RTry {blk(stmts(st.body))})")
+                continue
+            if isinstance(st, (ast.For, ast.While)):
+                head = st.iter if isinstance(st, ast.For) else st.test
+                if has_opener(head) or st.orelse:
+                    raise TranslateError("opener in a loop head / loop-else")
+                out.append("RAny")               # creating the iterator may raise
+                out.append(f"(RLoop {blk(['RAny'] + stmts(st.body))})")     # every next() may raise
+                continue
+            raise TranslateError(f"unsupported statement in read_file at line {st.lineno}: " + ast.unparse(st)[:80])
+        return out
+    return blk(stmts(fns[0].body))
+
+
+def read_file_handle_correspondence(ctx, observations):
+    """every observed (way out of read_file, change of the number of open handles) must be one of the exits the
+    model computes for the regenerated skeleton"""
+    code = {"normal": "ONormal", "raise": "ORaise", "abandon": "OAbandon"}
+    cases = [f"({code[o]}, {max(0, d)})" for o, d in observations]
+    pre = "From S2T Require Import C15.Handles Gen.C15ReadFile.\nImport List ListNotations.\n"
+    okc, failing, log = coq_eval_shards(ctx, "handles", pre, "(fun r => res_in r (exec_b 2 read_file_skeleton 0))", cases,
+                                        ty="outcome * nat")
+    ctx.traces += len(cases)
+    ctx.disagreements += len(failing)
+    ctx.obligation("correspondence:observed exits of read_file (outcome, handle delta) are exits of the model", okc and not failing,
+                   (f"{len(failing)} disagreements, first: {observations[failing[0]] if failing else ''} " + log)[:600])
+
+
+_MODNAME_CACHE = {}
+
+
+def _is_module_name(dotted: str) -> bool:
+    """does `from pkg import name` / `import a.b as c` name a MODULE (not a class or function)?"""
+    if dotted not in _MODNAME_CACHE:
+        try:
+            import importlib.util
+            _MODNAME_CACHE[dotted] = importlib.util.find_spec(dotted) is not None
+        except Exception:  # noqa
+            _MODNAME_CACHE[dotted] = False
+    return _MODNAME_CACHE[dotted]
+
+
+def third_party_knobs():
+    """(module, attribute) pairs: module-level scalar settings of third-party / stdlib modules that the library's
+    source reads or writes through a module alias (`pypdf_filters.ZLIB_MAX_OUTPUT_LENGTH`, `Image.MAX_IMAGE_PIXELS`, ...)."""
+    root, files = _library_files()
+    knobs = {}
+    for p in files:
+        tree = ast.parse(p.read_text(encoding="utf-8"))
+        al = _aliases(tree)
+        for n in ast.walk(tree):
+            # only settings the library WRITES (protocol constants such as re.IGNORECASE or xlrd.XL_CELL_TEXT are read-only
+            # uses and must not be perturbed)
+            if isinstance(n, ast.Attribute) and isinstance(n.ctx, ast.Store) and isinstance(n.value, (ast.Name, ast.Attribute)):
+                d, base = _dotted(n.value, al)
+                if not d or base is None or d.startswith("sharepoint2text") or not _is_module_name(d):
+                    continue
+                try:
+                    mod = importlib.import_module(d)
+                    v = getattr(mod, n.attr)
+                except Exception:  # noqa
+                    continue
+                if isinstance(v, (bool, int, float)) and not isinstance(v, type) and not n.attr.startswith("__"):
+                    knobs[(d, n.attr)] = str(p.relative_to(root))
+    return knobs
+
+
+def third_party_scalars():
+    """module-level scalar settings (UPPER_CASE ints / floats / bools / None) of the third-party packages the library
+    imports - part of the residue snapshot"""
+    global _TP_PKGS
+    if _TP_PKGS is None:
+        root, files = _library_files()
+        pk = set()
+        std = getattr(sys, "stdlib_module_names", set())
+        for p in files:
+            for n in ast.walk(ast.parse(p.read_text(encoding="utf-8"))):
+                if isinstance(n, ast.Import):
+                    pk.update(a.name.split(".")[0] for a in n.names)
+                elif isinstance(n, ast.ImportFrom) and n.module and n.level == 0:
+                    pk.add(n.module.split(".")[0])
+        _TP_PKGS = {x for x in pk if x not in std and x != "sharepoint2text"}
+    global _TP_MODS
+    if _TP_MODS[0] != len(sys.modules):
+        _TP_MODS = (len(sys.modules), [(n, m) for n, m in list(sys.modules.items())
+                                       if m is not None and n.split(".")[0] in _TP_PKGS])
+    out = {}
+    for mname, mod in _TP_MODS[1]:
+        for k, v in vars(mod).items():
+            if k.isupper() and (v is None or isinstance(v, (bool, int, float))):
+                out[(mname, k)] = v
+    return out
+
+
+_TP_PKGS = None
+_TP_MODS = (0, [])
+
+
+def knob_perturbation_checks(ctx, mon, docs, base):
+    """The application may have configured a third-party setting AFTER the library was imported.  For every such
+    setting the library's source mentions: set it to a value different from the import-time one (small, so that
+    guarded paths actually run), extract documents, and require the setting to be exactly what the application
+    had set after every single extraction."""
+    knobs = third_party_knobs()
+    ctx.extra["third_party_knobs"] = {f"{m}.{a}": src for (m, a), src in knobs.items()}
+    pdfs = [d for d in docs if d.endswith(".pdf") and "/resources/" in d and os.path.getsize(d) < 300_000]
+    others = [d for d in docs if "/resources/" in d and os.path.getsize(d) < 60_000][:12]
+    for (m, a), src in sorted(knobs.items()):
+        mod = importlib.import_module(m)
+        old = getattr(mod, a)
+        if isinstance(old, bool):
+            cands = [not old]
+        elif isinstance(old, int):
+            cands = [max(1, old // 5000), old * 2 + 1]
+        else:
+            cands = [old / 2 if old else 1.5]
+        work = pdfs if m.split(".")[0] == "pypdf" else others
+        try:
+            for new in cands:
+                for d in work:
+                    setattr(mod, a, new)
+                    got = guarded_digest(d, None)
+                    now = getattr(mod, a)
+                    ctx.case(("knob", m, a, new, Path(d).name), True, kind="third-party-setting-perturbed")
+                    if got == "hang":
+                        return
+                    if now != new:
+                        ctx.finding(f"residue:third-party-config:{m}.{a}",
+                                    f"the application had set {m}.{a} = {new!r}; after extracting {Path(d).name} ({got}) it is {now!r} "
+                                    f"(import-time value {old!r}): a third-party setting is not put back to the value that was found",
+                                    {"setting": f"{m}.{a}", "set_by_application": new, "after": now, "import_time": old, "document": d,
+                                     "how": f"import {m}; {m}.{a} = {new!r}; list(read_file(document)); {m}.{a}"})
+                        break
+        finally:
+            setattr(mod, a, old)
+    mon.interp = interp_snapshot()
+    mon.tp = third_party_scalars()
+
+
 def entry_point_failure_checks(ctx, mon, fx, tmpdocs):
     """Failed (and border-line successful) calls of the PUBLIC entry point read_file with its own parameters and path
     kinds - not only damaged contents handed to an extractor: size limit around the file size, directory, missing
@@ -2516,11 +2759,36 @@ def entry_point_failure_checks(ctx, mon, fx, tmpdocs):
     if picks and not (d / "link.txt").exists():
         os.symlink(str(picks[0]), str(d / "link.txt"))
 
+    observations = []
+
     def call(path, **kw):
+        gc.collect()
+        n0 = len(fd_table())
         try:
-            return digest_results(list(sharepoint2text.read_file(path, **kw)))
+            r = digest_results(list(sharepoint2text.read_file(path, **kw)))
+            how = "normal"
         except Exception as e:  # noqa
-            return "exc:" + type(e).__name__
+            r = "exc:" + type(e).__name__
+            how = "raise"
+        gc.collect()
+        observations.append((how, len(fd_table()) - n0))
+        return r
+
+    def abandon(path):
+        gc.collect()
+        n0 = len(fd_table())
+        try:
+            g = sharepoint2text.read_file(path)
+            next(g)
+            g.close()
+            how = "abandon"
+        except StopIteration:
+            how = "normal"
+        except Exception:  # noqa
+            how = "raise"
+        gc.collect()
+        observations.append((how, len(fd_table()) - n0))
+        return how
     cases = []
     for p in picks:
         n = p.stat().st_size
@@ -2542,7 +2810,13 @@ def entry_point_failure_checks(ctx, mon, fx, tmpdocs):
         k = f"entry-point:{'fails' if outs[0].startswith('exc:') else 'ok'}:{outs[0].split(':')[1] if outs[0].startswith('exc:') else ''}"
         kinds[k] = kinds.get(k, 0) + 1
         ctx.case(("entry", name, outs[0]), True, kind=k)
+    for p in picks:
+        how = abandon(str(p))
+        mon.step(f"read_file({p.name}) abandoned after its first result", how, {"path": str(p), "call": "g = read_file(p); next(g); g.close()"},
+                 key="read_file-entry-point")
+        ctx.case(("entry-abandon", p.name, how), True, kind="entry-point:abandoned")
     ctx.extra["entry_point_cases"] = kinds
+    read_file_handle_correspondence(ctx, observations)
 
 
 _AMBIENT_SNIPPET = r"""
@@ -2790,14 +3064,15 @@ def _run(ctx, tmproot, tmpdocs):
     sk, rk_shape, rk_gates, fk, lru, notes = gen_files(ctx, pe, aes)
     ctx.extra["generated"] = notes
 
-    ctx.prove("C15/Props.v", ["C15/ProofsPatch.vo", "C15/ProofsMemo.vo", "C15/ProofsShared.vo"], expected=[
+    ctx.prove("C15/Props.v", ["C15/ProofsPatch.vo", "C15/ProofsMemo.vo", "C15/ProofsShared.vo", "C15/Handles.vo"], expected=[
         "C15_patch_refuted", "C15_patch_interference_refuted", "C15_patch_nesting_unbounded", "C15_patch_restored",
         "C15_patch_inside_wrapped", "C15_patch_no_deadlock", "C15_sequential_residue_free", "C15_memo_transparent",
         "C15_round_keys_atomic_is_memo", "C15_round_key_cache_race_refuted", "C15_font_cache_transparent_refuted",
         "C15_font_cache_keyed_transparent", "C15_aes_patch_residue_refuted", "C15_aes_result_history_refuted",
         "C15_aes_result_history_independent", "C15_aes_guard_complete_independent", "C15_aes_guard_incomplete_refuted",
         "C15_type_registry_inplace_refuted", "C15_type_registry_publish_complete", "C15_no_other_shared_state",
-        "C15_unclassified_shared_state_refuted", "C15_aes_residue_by_extraction_refuted", "C15_aes_at_import_residue_free"])
+        "C15_unclassified_shared_state_refuted", "C15_aes_residue_by_extraction_refuted", "C15_aes_at_import_residue_free",
+        "C15_read_file_handles_closed", "C15_raw_open_then_wrap_refuted"])
     ctx.prove("C15/Inst.v", ["Gen/C15Skeleton.vo", "C15/Corr.vo", "C15/ProofsPatch.vo"], expected=[
         "C15_skeleton_is_locked_protocol", "C15_skeleton_restored", "C15_skeleton_inside_wrapped",
         "C15_single_patch_target", "C15_skeleton_safe_k2", "C15_skeleton_safe_k3_after_history"])
@@ -2840,6 +3115,18 @@ def _run(ctx, tmproot, tmpdocs):
     unknown_sites = global_mutation_inventory(ctx)
     shared_mutable_inventory(ctx)
     yield_under_lock_inventory(ctx)
+    try:
+        rf_term, rf_err = translate_read_file(), None
+    except TranslateError as e:
+        rf_term, rf_err = "BNil", str(e)
+    ctx.obligation("X:skeleton-translation(read_file)", rf_err is None, rf_err or "")
+    ctx.gen_write("Gen/C15ReadFile.v", "(* GENERATED on every check run from the ast of sharepoint2text/__init__.py - do not edit. *)\n"
+                  "From S2T Require Import C15.Handles.\n\n(* sharepoint2text.read_file"
+                  + (" (TRANSLATION FAILED: " + rf_err.replace("*)", "") + ")" if rf_err else "") + " *)\n"
+                  f"Definition read_file_skeleton : rblock :=\n  {rf_term}.\n")
+    ctx.extra["read_file_skeleton"] = rf_term
+    ctx.prove("C15/InstHandles.v", ["Gen/C15ReadFile.vo", "C15/Handles.vo"], expected=[
+        "C15_read_file_no_raw_handles", "C15_read_file_skeleton_handles_closed", "C15_read_file_skeleton_exits"])
     from sharepoint2text.parsing.extractors import serialization as _ser
     try:
         reg_shape, reg_labels = translate_registry(_ser)
